@@ -75,7 +75,7 @@ def check(run):
     r = gen.rng_for(run.seed, "c02")
     for i in range(6000 if thorough else 1500):
         ders = ["EnumString"] + DERIVE_SETS[i % 4] + (["EnumMessage"] if i % 3 else [])
-        gp = (None, None, "T", "N", "Tw", "Tdef") if "IntoStaticStr" in ders else (None, None, "T", "a", "aT", "N", "Tw", "TNdef")
+        gp = (None, None, "T", "N", "Tw", "Tdef", "Tnd", "NT") if "IntoStaticStr" in ders else (None, None, "T", "a", "aT", "N", "Tw", "TNdef", "Tnd", "NT")
         specs.append(strgen.build(r, "R%d" % i, ders, generics_pool=gp, n=(40 if i in (5, 6) else r.choice([1, 2, 3, 4, 5, 6, 8])), allow_braces=True, raw_bare=True))
     units = [shards.Unit("u_" + s.name.lower(), glue(s), meta={"enum_src": s.render(), "bare_src": s.render_bare()}, sig=s.signature(), head=strgen.CAPTURE_HEAD) for s in specs]
     run.rule = RULE
